@@ -419,6 +419,13 @@ def gen_key_cases(rng, budget):
     for _ in range(10):
         b = bytes(rng.randrange(256) for _ in range(rng.choice([1, 2, 20, 32])))
         ids.append({'t': b.hex()})
+    # identifiers containing tag-valued / small bytes at various split points (length-prefix and kind-tag confusions)
+    for s in (b'ua', b'ub\x01uc', b'ua\x01ub', b'uc', b'ua\x00ub', b'ub\x00uc', b'\x01', b'\x00', b'a\x01', b'\x01a', b'ua\x01', b'\x01ub'):
+        ids.append({'t': s.hex()})
+        try:
+            ids.append({'n': s.decode()})
+        except Exception:
+            pass
     out = []
     for _ in range(budget):
         a, b = rng.choice(ids), rng.choice(ids)
